@@ -190,6 +190,23 @@ fn body(ctx: &mut Ctx) {
             }
         }
     }
+    if ctx.space("R5") {
+        let lmax = tier.pick(24usize, 48usize);
+        for l in 2..=lmax {
+            if !ctx.mine(l as u64) {
+                continue;
+            }
+            for salt in 0..4u64 {
+                let x = Nat::from_digits(&alpha::lcg_digits(l, salt));
+                for d in [2u32, 3, 4, 5, 7, 16, 64, 100] {
+                    root_case(ctx, &x, d);
+                }
+            }
+            if l == 17 {
+                ctx.sample(|| "dense LCG values of 17 digits x degrees {2,3,4,5,7,16,64,100}".to_string());
+            }
+        }
+    }
     if ctx.space("R4") && ctx.mine(0) {
         // n = 0 must panic for every x
         for d in alpha::pool_mags().iter().take(20) {
